@@ -9,7 +9,7 @@ Reference: the same call rebuilt from descriptors in a brand-new Environment.
 """
 import json
 
-from ..core import Engine, stream, BuildError, digest
+from ..core import Engine, stream, BuildError, digest, SimCancel
 from ..build import World, render, render_type
 from ..gen import ExprGen, gen_types, gen_fluents, values_of, subtype_of
 from ..inject import LineFault, Callbacks
@@ -73,7 +73,7 @@ class EnvState:
         lf = None
         try:
             if fault is not None and fault["kind"] == "async_mem":
-                lf = LineFault(at=fault.get("at"))
+                lf = LineFault(at=fault.get("at"), exc=SimCancel if fault.get("exc") == "cancel" else MemoryError)
                 lf.__enter__()
             e = W.expr(op["e"])
             if k == "subst":
@@ -116,7 +116,7 @@ class EnvState:
             out = ["ok", _js(r)]
         except BuildError:
             raise
-        except Exception as ex:
+        except (Exception, SimCancel) as ex:
             out = ["exc", type(ex).__name__, stage]
         finally:
             if lf is not None:
@@ -400,6 +400,8 @@ class EnvHist(Engine):
                 if rf.random() < 0.25:
                     fop = {"op": "build", "e": embed(e, kind)}
                 fop["fault"] = {"kind": "async_mem", "frac": round(rf.random(), 4)}
+                if rf.random() < 0.3:
+                    fop["fault"]["exc"] = "cancel"   # a BaseException (cancellation), not MemoryError
             related = [
                 normal_op(e, kind, fop["op"] if fop["op"] != "build" else "simplify"),
                 normal_op(embed(e, kind), "bool", rf.choice(["simplify", "subst", "type", "rmq"])),
@@ -458,7 +460,7 @@ class EnvHist(Engine):
         for v, at in enumerate(positions):
             sc = dict(base)                      # shares everything but the faulted operation
             sc["ops"] = list(base["ops"])
-            sc["ops"][i] = dict(base["ops"][i], fault={"kind": "async_mem", "at": at})
+            sc["ops"][i] = dict(base["ops"][i], fault=dict(base["ops"][i]["fault"], kind="async_mem", at=at))
             sc["variant"] = v
             sc["enumerated"] = {"op": i, "events": n, "positions": len(positions)}
             out.append(sc)
@@ -498,7 +500,7 @@ class EnvHist(Engine):
                         n = self.count_events({"world": world, "ops": [{k: v for k, v in o.items() if k != "fault"}
                                                                         for o in ops[:i]] + [op]}, i)
                         at = 1 + int(fault["frac"] * n)
-                    eff_fault = {"kind": "async_mem", "at": at}
+                    eff_fault = {"kind": "async_mem", "at": at, "exc": fault.get("exc")}
                 elif fault["kind"] == "callback_raise":
                     cb.arm(fault["fn"], fault["nth"])
             try:
